@@ -53,7 +53,22 @@ type pair struct {
 	c, s      net.Conn
 	blackhole bool
 	dead      bool
+	upgraded  bool // the server's handshake response has been forwarded to the client
 	mu        sync.Mutex
+}
+
+// Upgraded reports whether the server's answer to the HTTP upgrade of connection id has been forwarded.
+func (p *Proxy) Upgraded(conn int) bool {
+	p.mu.Lock()
+	defer p.mu.Unlock()
+	for _, x := range p.pairs {
+		if x.id == conn {
+			x.mu.Lock()
+			defer x.mu.Unlock()
+			return x.upgraded
+		}
+	}
+	return false
 }
 
 func New(target string) (*Proxy, error) {
@@ -266,6 +281,11 @@ func (p *Proxy) pump(pr *pair, src, dst net.Conn, dir string) {
 		if i := bytes.Index(buf, []byte("\r\n\r\n")); i >= 0 {
 			if !write(buf[:i+4]) {
 				return
+			}
+			if dir == "s2c" {
+				pr.mu.Lock()
+				pr.upgraded = true
+				pr.mu.Unlock()
 			}
 			buf = buf[i+4:]
 			break
